@@ -167,8 +167,64 @@ def load_ast(root=None, extra_files=()):
     if p.returncode != 0:
         raise CheckerError("astdump failed: " + p.stderr.strip())
     a = Ast(json.loads(p.stdout), root)
+    look_through(a)
     _ast_cache[key] = a
     return a
+
+
+VOCAB = os.path.join(os.path.dirname(os.path.abspath(__file__)), "vocab.json")
+
+
+def look_through(a, prefix=""):
+    """Helper functions that are not in the vocabulary the rules were confirmed against (lib/vocab.json) are inlined at
+    their call sites (lib/pm.py inline_helpers), so that extracting lines into a new private helper leaves what the rules
+    analyse unchanged.  A new helper whose every call could be inlined is dropped from the function index; one that could
+    not be inlined everywhere stays visible and is analysed like any other function."""
+    if os.environ.get("HPBF_NO_LOOKTHROUGH"):
+        return
+    if not os.path.exists(VOCAB):
+        raise CheckerError("lib/vocab.json missing (tools/gen_vocab.py)")
+    with open(VOCAB) as fh:
+        vocab = json.load(fh)
+    import pm
+    a.looked_through = {}
+    allf = a.functions()
+    for path in list(a.files):
+        known = vocab.get(prefix + path)
+        if known is None:
+            continue
+        known = set(known)
+        fns = [f for f in allf if f["path"] == path]
+        new = [f for f in fns if (f["container"] + "::" + f["name"]) not in known and not is_test_item(f) and f["node"].get("body")]
+        if not new:
+            continue
+        new_names = {f["name"] for f in new}
+        keep = tuple({f["name"] for f in fns} - new_names)
+        for f in fns:
+            if f["node"].get("body") is None or is_test_item(f):
+                continue
+            try:
+                f["node"]["body"] = pm.inline_helpers(a, path, f["node"], depth=3, exprs=True, keep=keep)["body"]
+            except (KeyError, TypeError, AttributeError, IndexError):
+                pass    # leave the function as written; the helper stays visible
+        # which new helpers are still referenced?
+        still = set()
+        for f in fns:
+            if is_test_item(f) or f["node"].get("body") is None:
+                continue
+            for n in walk(f["node"]["body"]):
+                nm = pm._callee_name(n) if n.get("t") in ("Call", "MethodCall") else None
+                if nm in new_names:
+                    still.add(nm)
+                if n.get("t") == "Call":
+                    pn = path_name(strip_paren(n["func"]))
+                    if pn and pn.split("::")[-1] in new_names:
+                        still.add(pn.split("::")[-1])
+                if n.get("t") == "PathExpr" and n["path"]["name"].split("::")[-1] in new_names:
+                    still.add(n["path"]["name"].split("::")[-1])
+        gone = [f for f in new if f["name"] not in still]
+        a.looked_through[path] = {"inlined": sorted(f["name"] for f in gone), "kept_visible": sorted(still)}
+        a._fns = [f for f in a._fns if not any(f is g for g in gone)]
 
 
 def parse_text(text, name="snippet.rs"):
@@ -486,6 +542,7 @@ def load_expanded(root=None, rename=("idx", "idx2", "off", "off2", "val")):
             raise CheckerError("astdump failed on the expanded source: " + q.stderr.strip()[-400:])
         a = Ast(json.loads(q.stdout), tdir)
         a.lines("expanded.rs")
+        look_through(a, prefix="expanded:")
         _expanded_cache[root] = a
         return a
     finally:
